@@ -287,6 +287,16 @@ GroupExtToks(g, n) == S1t \o <<"GROUP", "BY", g, "(", "a">> \o (IF n = 2 THEN <<
 GroupExtTree(g, n) == S1 @@ [GroupBy |-> <<[T |-> (IF g = "ROLLUP" THEN "RollupExpression" ELSE "CubeExpression"),
                                           Expressions |-> (IF n = 2 THEN <<Id("a"), Id("b")>> ELSE <<Id("a")>>)]>>]
 
+\* ---- chains of set operations: three operands, every pair of operators, each with and without ALL ------------------
+\* INTERSECT binds more tightly than UNION and EXCEPT (SQL-92 7.10); operators of one level associate to the left;
+\* ALL belongs to the operation it is written on and to no other
+SetOperators == {"UNION", "EXCEPT", "INTERSECT"}
+SetOps == [op : SetOperators, all : BOOLEAN]
+SetChainToks(x, y) == S1t \o <<x.op>> \o (IF x.all THEN <<"ALL">> ELSE <<>>) \o S2t \o <<y.op>> \o (IF y.all THEN <<"ALL">> ELSE <<>>) \o S3t
+SetChainTree(x, y) == IF y.op = "INTERSECT" /\ x.op # "INTERSECT"
+                        THEN SetOp(S1, x.op, x.all, SetOp(S2, y.op, y.all, S3))
+                        ELSE SetOp(SetOp(S1, x.op, x.all, S2), y.op, y.all, S3)
+
 VARIABLES case, done
 vars == <<case, done>>
 Init == /\ done = FALSE
@@ -294,6 +304,8 @@ Init == /\ done = FALSE
            \/ \E f \in Forms \cup Forms2 : case = [name |-> f.name, cfg |-> <<>>, toks |-> f.toks, tree |-> f.tree]
            \/ \E c \in TailCfg : ValidTail(c) /\ case = [name |-> "tail", cfg |-> c, toks |-> TailToks(c), tree |-> TailTree(c)]
            \/ \E c \in WindowCfg : ValidWindow(c) /\ case = [name |-> "window-spec", cfg |-> c, toks |-> WindowToks(c), tree |-> WindowTree(c)]
+           \/ \E x \in SetOps, y \in SetOps :
+                 case = [name |-> "set-chain:" \o x.op \o ":" \o y.op, cfg |-> <<x, y>>, toks |-> SetChainToks(x, y), tree |-> SetChainTree(x, y)]
            \/ \E g \in GroupExt, n \in 1..2 : case = [name |-> "group-" \o g, cfg |-> <<>>, toks |-> GroupExtToks(g, n), tree |-> GroupExtTree(g, n)]
            \/ \E cx \in OrderCtx, l \in OrderLists :
                  case = [name |-> "order-" \o cx, cfg |-> l, toks |-> OrderToks(cx, l), tree |-> OrderTree(cx, l)]
@@ -320,6 +332,16 @@ WindowLaw == (case.name = "window-spec") =>
     /\ (("FrameClause" \in DOMAIN w) <=> (Tok("ROWS") \/ Tok("RANGE")))
     /\ (("FrameClause" \in DOMAIN w) => (("End" \in DOMAIN w.FrameClause) <=> Tok("BETWEEN")))
     /\ (("PartitionBy" \in DOMAIN w) <=> Tok("PARTITION")) /\ (("OrderBy" \in DOMAIN w) <=> Tok("ORDER"))
+\* ALL stands in the tree exactly on the operation it was written on (the outer operation of the tree is the second
+\* written one unless INTERSECT pulled the right operands together)
+SetChainNames == {"set-chain:" \o a \o ":" \o b : a \in SetOperators, b \in SetOperators}
+SetChainLaw == (case.name \in SetChainNames) =>
+    LET x == case.cfg[1]  y == case.cfg[2]
+        nested == y.op = "INTERSECT" /\ x.op # "INTERSECT"
+        outer == case.tree
+        inner == IF nested THEN case.tree.Right ELSE case.tree.Left IN
+    /\ (("All" \in DOMAIN outer) <=> (IF nested THEN x.all ELSE y.all))
+    /\ (("All" \in DOMAIN inner) <=> (IF nested THEN y.all ELSE x.all))
 TailLaw == (case.name = "tail") =>
     /\ (Tok("FETCH") <=> Has("Fetch")) /\ (Tok("FOR") <=> Has("For")) /\ (Tok("OFFSET") <=> Has("Offset"))
     /\ (Tok("OF") <=> (Has("For") /\ "Tables" \in DOMAIN case.tree.For))
